@@ -566,6 +566,11 @@ def displayShortest (n : Name) : Bytes :=
    else if !equalFold sLibrary n.ns then n.ns ++ [cSlash]
    else []) ++ (n.model ++ (cColon :: n.tag))
 
+/-- `model.Name.EqualFold` (the comparison `routes.go getExistingName` uses on the legacy store), exact whenever the parts
+    of `a` are ASCII (any valid name); `b` may hold arbitrary bytes -/
+def nameEqualFold (a b : Name) : Bool :=
+  equalFold a.host b.host && equalFold a.ns b.ns && equalFold a.model b.model && equalFold a.tag b.tag
+
 /-- `server.canonicalDigest` (layer.go): the `sha256:<hex>` spelling of a `sha256-<hex>` digest -/
 def canonicalDigest (d : Bytes) : Bytes :=
   if d.take 7 == sSha256 ++ [cDash] then sSha256 ++ (cColon :: d.drop 7) else d
